@@ -23,6 +23,21 @@ reg(
     "DESIGN.md §3 C07",
 )
 
+reg(
+    "C04", "exploration",
+    "differential runtime monitor (marker vs. executable matching spec) + icontract post-condition on the real recursive scoring function",
+    "20k (thorough 300k) generated (pattern, payload) pairs near the decision boundary (payload = instance of the pattern edited by add/drop/reorder/alter), through the real parser and interpreter; the marker after `match E(p=<pattern>)` must be emitted iff the 25-line spec says so, and an icontract post-condition judges every recursive call of _compute_arguments_dict_matching_score made for the test event (inner scores that cancel out are still caught). Instance clause: reference matches on two actions / two flow instances in all arrival orders. Held on the executions observed.",
+    "trusts the executable spec `matches`, the generator's rendering of patterns to Colang source, icontract; cross-type numeric comparisons and regex-vs-number are outside the statement and not generated",
+    "DESIGN.md §3 C04",
+)
+reg(
+    "C08", "exploration",
+    "differential runtime monitor: echoed parameters / returned value / locals vs. a 15-line binder",
+    "10k (thorough 200k) generated signatures and calls (positional/named/omitted, defaults, literals, caller variables and expressions; six call forms: await, $r = await, start+match Finished, activate with restarts, await in or-group, when) plus sibling-instance scenarios; callee echoes its bound parameters and its local, caller echoes the assigned return value and its own local. Held on the executions observed.",
+    "trusts the binder oracle and the literal renderer; corner cases the statement does not fix (defaults referring to parameters, same parameter twice, surplus arguments) are not generated",
+    "DESIGN.md §3 C08",
+)
+
 NOT_BUILT_REASON = "check not built yet in this revision (claimed by DESIGN.md; see §5 order of work)"
 
 
